@@ -539,6 +539,80 @@ def run_setlink(case, r):
         env.rm(path)
 
 
+def run_relink(case, r):
+    """re-pointing a link from one KIND of target to another and from one target to another of the same kind:
+    dimension links frame -> other frame / frame -> array / array -> frame, feature data frame -> array / array -> frame;
+    what is reached afterwards is the new original (kind, id, content), written-through changes land there"""
+    env.install_seams()
+    env.reset_execution()
+    path = env.fresh_path("c05e_")
+    f = nix.File.open(path, nix.FileMode.Overwrite)
+    try:
+        b = f.create_block("b", "t")
+        dfA = b.create_data_frame("frameA", "t", col_dict=dict([("t", np.float64), ("n", str)]), data=[(0.5, "a"), (1.5, "b"), (4.0, "c")])
+        dfA.units = ["ms", None]
+        dfB = b.create_data_frame("frameB", "t", col_dict=dict([("t", np.float64), ("n", str)]), data=[(10.0, "x"), (20.0, "y"), (30.0, "z")])
+        dfB.units = ["kV", None]
+        arr = b.create_data_array("ticksarr", "t", data=np.array([100.0, 200.0, 300.0]), unit="A", label="arr")
+        da = b.create_data_array("d", "t", data=np.zeros(3))
+        dim = da.append_range_dimension()
+        targets = {"frameA": (lambda d: d.link_data_frame(dfA, 0), [0.5, 1.5, 4.0], "ms", "t"),
+                   "frameB": (lambda d: d.link_data_frame(dfB, 0), [10.0, 20.0, 30.0], "kV", "t"),
+                   "array": (lambda d: d.link_data_array(arr, [-1]), [100.0, 200.0, 300.0], "A", "arr")}
+        for first in targets:
+            for second in targets:
+                if first == second:
+                    continue
+                r.evals += 1
+                r.nontrivial += 1
+                d_ = da.dimensions[0]
+                targets[first][0](d_)
+                _ = list(da.dimensions[0].ticks)
+                targets[second][0](da.dimensions[0])
+                for hname, h in (("fresh-handle", da.dimensions[0]), ("held-handle", d_)):
+                    got = ([float(x) for x in h.ticks], h.unit, h.label)
+                    exp = (targets[second][1], targets[second][2], targets[second][3])
+                    if got != exp:
+                        r.viol("C05|relink-dimension|%s->%s|%s|reports-old-or-wrong-target" % (first, second, hname),
+                               "dimension linked to %s then re-linked to %s reports ticks %r unit %r label %r, expected %r" % (
+                                   first, second, got[0], got[1], got[2], exp), {})
+                        return
+        # feature data: frame <-> array, on a tag and on a multi tag
+        tag = b.create_tag("tag", "t", [0.0])
+        mt = b.create_multi_tag("mt", "t", b.create_data_array("pos", "t", data=np.array([0.0])))
+        for owner in (tag, mt):
+            for first, second in ((dfA, arr), (arr, dfA), (dfA, dfB)):
+                r.evals += 1
+                r.nontrivial += 1
+                ft = owner.create_feature(first, nix.LinkType.Untagged)
+                _ = ft.data.id
+                ft.data = second
+                for hname, h in (("held-handle", ft), ("fresh-handle", owner.features[len(owner.features) - 1])):
+                    got = h.data
+                    if type(got) is not type(second) or got.id != second.id or got.name != second.name:
+                        r.viol("C05|relink-feature|%s->%s|%s|not-the-new-original" % (type(first).__name__, type(second).__name__, hname),
+                               "feature data re-pointed from %s %r to %s %r yields %s %r" % (
+                                   type(first).__name__, first.name, type(second).__name__, second.name, type(got).__name__, getattr(got, "name", None)), {})
+                        return
+                if isinstance(second, nix.DataArray):
+                    owner.features[len(owner.features) - 1].data.label = "through-feature"
+                    if arr.label != "through-feature":
+                        r.viol("C05|relink-feature|write-through-lost", "label set through the re-pointed feature did not reach the array", {})
+                        return
+                    arr.label = "arr"
+        f.close()
+        f = nix.File.open(path, nix.FileMode.ReadOnly)
+        b = f.blocks["b"]
+        r.evals += 1
+        k = [type(ft.data).__name__ for ft in b.tags["tag"].features]
+        if k != ["DataArray", "DataFrame", "DataFrame"]:
+            r.viol("C05|relink-feature|after-reopen|wrong-kinds", "feature data kinds after reopen: %r" % k, {})
+        r.outcomes.add("relink")
+    finally:
+        env.safe_close(f)
+        env.rm(path)
+
+
 def BOUNDS(tier):
     env.install_seams()
     return {"path_matrix": "all targets of the rich seed with >= 2 paths x menu x every path", "link_lists": 10,
@@ -569,10 +643,11 @@ def cases(tier):
     for shp in shapes:
         out.append({"k": "dimlink", "shape": shp})
     out.append({"k": "setlink"})
+    out.append({"k": "relink"})
     return out
 
 
 def run_case(case):
     r = R()
-    {"paths": run_paths, "accept": run_accept, "dimlink": run_dimlink, "setlink": run_setlink}[case["k"]](case, r)
+    {"paths": run_paths, "accept": run_accept, "dimlink": run_dimlink, "setlink": run_setlink, "relink": run_relink}[case["k"]](case, r)
     return r
